@@ -27,6 +27,9 @@ type c18e2eCase struct {
 	Kind     string `json:"reconciler"`
 	First    []int  `json:"first_reconcile_choices"`
 	Second   []int  `json:"second_reconcile_choices"`
+	// Result: what the handler answers: "" ReprocessAll, "success", "noretry" (the handler refuses the configuration for
+	// good: it is on record all the same, an unrelated event must not hand it over again)
+	Result string `json:"handler_result,omitempty"`
 }
 
 func c18Store(snap *config.ClusterResources) *verifenv.Store {
@@ -62,16 +65,23 @@ func c18e2eRun(res *verifrt.Result, c c18e2eCase, snap *config.ClusterResources)
 	res.Count("evaluations", 1)
 	st := c18Store(snap)
 	handlerCalls, reloads := 0, 0
+	answer := SyncStateReprocessAll
+	switch c.Result {
+	case "success":
+		answer = SyncStateSuccess
+	case "noretry":
+		answer = SyncStateErrorNoRetry
+	}
 	req := ctrl.Request{NamespacedName: types.NamespacedName{Namespace: "metallb-system", Name: "x"}}
 	var reconcile func() error
 	if c.Kind == "config" {
 		r := &ConfigReconciler{Client: st, Logger: log.NewNopLogger(), Namespace: "metallb-system", ValidateConfig: config.DontValidate,
-			Handler:     func(log.Logger, *config.Config) SyncState { handlerCalls++; return SyncStateReprocessAll },
+			Handler:     func(log.Logger, *config.Config) SyncState { handlerCalls++; return answer },
 			ForceReload: func() { reloads++ }}
 		reconcile = func() error { _, err := r.Reconcile(context.Background(), req); return err }
 	} else {
 		r := &PoolReconciler{Client: st, Logger: log.NewNopLogger(), Namespace: "metallb-system", ValidateConfig: config.DontValidate,
-			Handler:     func(log.Logger, *config.Pools) SyncState { handlerCalls++; return SyncStateReprocessAll },
+			Handler:     func(log.Logger, *config.Pools) SyncState { handlerCalls++; return answer },
 			ForceReload: func() { reloads++ }}
 		reconcile = func() error { _, err := r.Reconcile(context.Background(), req); return err }
 	}
@@ -110,6 +120,14 @@ func TestVerif_C18e2e(t *testing.T) {
 			work++
 			if !verifrt.Mine(work) {
 				continue
+			}
+			for _, result := range []string{"success", "noretry"} {
+				if result == "noretry" && kind == "pool" {
+					continue // the pool reconciler records accepted configurations only: a refused one is offered again by design
+				}
+				c := c18e2eCase{Snapshot: name, K: k, Kind: kind, Result: result}
+				c18e2eRun(res, c, snap)
+				distinct++
 			}
 			// second reconcile under every choice vector with <= 2 deviations (first: default order), and the reverse
 			for _, firstDefault := range []bool{true, false} {
